@@ -117,3 +117,11 @@ CHECKS.append({
     "level_note": _RS_NOTE,
 })
 NOT_APPLICABLE[:] = [n for n in NOT_APPLICABLE if n["property_id"] not in {c["id"] for c in CHECKS}]
+RUNNERS["C12"] = ("irq_check", "main", ())
+CHECKS.append({
+    "id": "C12", "engine": "rsym", "level": "other", "design_ref": "DESIGN.md section 9 / C12",
+    "technique": "inductive step decided by z3: one CoreRuntime::step of the real Rust runtime (LLVM IR, rsym) from an arbitrary interrupt-controller state (IMR, ISR, pending / in-interrupt / key-latch flags, power state, F, stack contents, vector, timer targets symbolic) for a set of programs at PC (NOP, RETI, HALT, OFF, writes to IMR/ISR), compared with the interrupt rules of the property statement",
+    "level_text": "Rust runtime only. z3 decides for all controller states that an interrupt is taken only with the master enable and an unmasked pending source and never while powered off; that taking it pushes exactly IMR, F and the resume PC, clears only the master enable, continues at the vector and marks the handler; that an unmasked pending request is taken in the very next step; that nothing is pushed otherwise; that a halted / powered-off CPU executes nothing and leaves that state exactly when a status bit is pending; that a powered-off CPU does not advance the timers; and that RETI restores IMR, F, PC and S. The Python machine (PCE500Emulator.step) is not encoded; its instruction-level half (IR;RETI) is C05.",
+    "level_note": _RS_NOTE,
+})
+NOT_APPLICABLE[:] = [n for n in NOT_APPLICABLE if n["property_id"] not in {c["id"] for c in CHECKS}]
